@@ -69,6 +69,7 @@ pub struct Solver {
     pub n_nl: u64,
     pub n_killed: u64,
     pub secs: f64,
+    pub secs_nl: f64,
     pub timeout_ms: u64,
     pub last_query: String,
     pub tag: String,
@@ -89,7 +90,7 @@ fn spawn_z3() -> (Child, ChildStdin, std::sync::mpsc::Receiver<String>) {
 impl Solver {
     pub fn new(timeout_ms: u64) -> Self {
         let (child, inp, out) = spawn_z3();
-        let mut s = Solver { child, inp, out, queries: 0, n_sat: 0, n_unsat: 0, n_unknown: 0, n_nl: 0, n_killed: 0, secs: 0.0, timeout_ms, last_query: String::new(), tag: String::new(), slow: vec![], decls: vec![], depth: 0, buf: String::new() };
+        let mut s = Solver { child, inp, out, queries: 0, n_sat: 0, n_unsat: 0, n_unknown: 0, n_nl: 0, n_killed: 0, secs: 0.0, secs_nl: 0.0, timeout_ms, last_query: String::new(), tag: String::new(), slow: vec![], decls: vec![], depth: 0, buf: String::new() };
         s.preamble();
         s
     }
@@ -155,6 +156,7 @@ impl Solver {
         match r { Sat::Sat => self.n_sat += 1, Sat::Unsat => self.n_unsat += 1, Sat::Unknown => self.n_unknown += 1 }
         let dt = t0.elapsed().as_secs_f64();
         self.secs += dt;
+        if nonlinear { self.secs_nl += dt; }
         if dt > 3.0 { let m = format!("slow query {:.1}s -> {:?} [{}] nl={} asserts={}", dt, r, self.tag, nonlinear, asserts.len()); if std::env::var("VERIF_SLOWLOG").is_ok() { eprintln!("{}", m); } if self.slow.len() < 4 { self.slow.push(m); } }
         r
     }
@@ -186,6 +188,7 @@ impl Solver {
 }
 impl Drop for Solver {
     fn drop(&mut self) {
+        if std::env::var("VERIF_SOLVERSTATS").is_ok() { eprintln!("solver[{}]: queries={} nl={} secs={:.2} secs_nl={:.2} killed={}", self.tag, self.queries, self.n_nl, self.secs, self.secs_nl, self.n_killed); }
         let _ = self.child.kill();
         let _ = self.child.wait();
     }
@@ -235,8 +238,10 @@ pub struct Ctx {
     // per-path state
     pub pc: Vec<Cond<Sym>>,
     pub decisions: Vec<bool>,
-    pub prefix: Vec<bool>,
-    pub pending: Vec<Vec<bool>>,
+    /// decision prefix to replay: 0/1 = free false/true, 2/3 = forced false/true (other side infeasible; nonlinear forced conjuncts are not added to the PC)
+    pub prefix: Vec<u8>,
+    pub pending: Vec<Vec<u8>>,
+    pub trace: Vec<u8>,
     cache: HashMap<(u8, u32, u32), bool>,
     pub stats: PathStats,
     pub violations: Vec<Violation>,
@@ -250,7 +255,11 @@ pub struct Ctx {
     pub branch_nl_timeout_ms: u64,
     /// wall-clock deadline of the unit being explored (None = no limit)
     pub deadline: Option<Instant>,
+    pc_smt: Vec<String>,
+    levels: Vec<Level>,
+    solver_epoch: u64,
 }
+struct Level { smt: String, nl: bool, special: Vec<u32>, vars: Vec<u32> }
 
 thread_local! {
     pub static CTX: RefCell<Option<Ctx>> = RefCell::new(None);
@@ -286,15 +295,17 @@ impl Ctx {
             nodes: vec![], cons: HashMap::new(), deps: vec![], ndeps: vec![], nl: vec![],
             solver: Solver::new(timeout_ms), mode: Mode::Symbolic, exact_inputs: HashMap::new(),
             var_names: vec![], var_ids: HashMap::new(),
-            pc: vec![], decisions: vec![], prefix: vec![], pending: vec![], cache: HashMap::new(),
-            stats: PathStats::default(), violations: vec![], max_decisions: 400, check_obligations: true, approx: false, n_inputs: 0, branch_nl_timeout_ms: timeout_ms, deadline: None,
+            pc: vec![], decisions: vec![], prefix: vec![], pending: vec![], trace: vec![], cache: HashMap::new(),
+            stats: PathStats::default(), violations: vec![], max_decisions: 400, check_obligations: true, approx: false, n_inputs: 0, branch_nl_timeout_ms: timeout_ms, deadline: None, pc_smt: vec![], levels: vec![], solver_epoch: 0,
         }
     }
-    pub fn begin_path(&mut self, prefix: Vec<bool>) {
+    pub fn begin_path(&mut self, prefix: Vec<u8>) {
         self.pc.clear();
+        self.pc_smt.clear();
         self.decisions.clear();
         self.prefix = prefix;
         self.pending.clear();
+        self.trace.clear();
         self.cache.clear();
         self.stats = PathStats::default();
         self.violations.clear();
@@ -434,74 +445,106 @@ impl Ctx {
             Cond::Bool(_) => {}
         }
     }
-    /// cone of influence: (axioms to attach, nonlinear?, variable nodes)
-    fn cone(&self, conds: &[&Cond<Sym>]) -> (Vec<String>, bool, Vec<u32>) {
+    /// nodes reachable from the conditions: (nonlinear?, variable nodes, sqrt/uf nodes)
+    fn closure(&self, conds: &[&Cond<Sym>]) -> (bool, Vec<u32>, Vec<u32>) {
         let mut stack = vec![];
         for c in conds { self.ids(c, &mut stack); }
-        let mut need = vec![false; self.nodes.len()];
+        let mut need: std::collections::HashSet<u32> = std::collections::HashSet::new();
         let mut vars = vec![];
         let mut nl = false;
-        let mut sq: Vec<u32> = vec![];
-        let mut ufs: Vec<u32> = vec![];
+        let mut sp: Vec<u32> = vec![];
         while let Some(v) = stack.pop() {
-            if need[v as usize] { continue; }
-            need[v as usize] = true;
+            if !need.insert(v) { continue; }
             nl |= self.nl[v as usize];
-            match &self.nodes[v as usize] { Node::Var(_) => vars.push(v), Node::Sqrt(_) => sq.push(v), Node::Uf(..) => ufs.push(v), _ => {} }
+            match &self.nodes[v as usize] { Node::Var(_) => vars.push(v), Node::Sqrt(_) | Node::Uf(..) => sp.push(v), _ => {} }
+            // a node whose whole sub-DAG is linear and variable-free cannot contribute anything further; still walk (cheap)
             for d in &self.deps[v as usize][..self.ndeps[v as usize] as usize] { stack.push(*d); }
         }
+        sp.sort_unstable();
+        (nl, vars, sp)
+    }
+    /// axioms for sqrt / uninterpreted-function nodes entering the solver's context
+    fn axioms_for(&self, new: &[u32], existing: &[u32]) -> Vec<String> {
         let mut ax = vec![];
-        for &i in &sq {
-            if let Node::Sqrt(a) = self.nodes[i as usize] {
-                ax.push(format!("(=> (>= n{a} 0.0) (and (>= n{i} 0.0) (= (* n{i} n{i}) n{a})))", a = a, i = i));
-            }
-        }
-        // sqrt is monotone/injective on its domain (helps when two sqrt terms are compared)
-        for (x, &i) in sq.iter().enumerate() { for &j in &sq[x + 1..] {
-            if let (Node::Sqrt(a), Node::Sqrt(b)) = (&self.nodes[i as usize], &self.nodes[j as usize]) {
-                ax.push(format!("(=> (and (>= n{a} 0.0) (>= n{b} 0.0)) (and (= (< n{a} n{b}) (< n{i} n{j})) (= (= n{a} n{b}) (= n{i} n{j}))))", a = a, b = b, i = i, j = j));
-            }
-        } }
-        for &i in &ufs {
-            if let Node::Uf(name, a) = self.nodes[i as usize] {
-                match name {
+        for &i in new {
+            match self.nodes[i as usize] {
+                Node::Sqrt(a) => ax.push(format!("(=> (>= n{a} 0.0) (and (>= n{i} 0.0) (= (* n{i} n{i}) n{a})))", a = a, i = i)),
+                Node::Uf(name, a) => match name {
                     "exp" | "exp2" => { ax.push(format!("(> n{} 0.0)", i)); ax.push(format!("(= (> n{} 0.0) (> n{} 1.0))", a, i)); }
-                    "tanh" => { ax.push(format!("(and (< n{i} 1.0) (> n{i} (- 1.0)) (= (> n{a} 0.0) (> n{i} 0.0)) (= (= n{a} 0.0) (= n{i} 0.0)))", i = i, a = a)); }
+                    "tanh" => ax.push(format!("(and (< n{i} 1.0) (> n{i} (- 1.0)) (= (> n{a} 0.0) (> n{i} 0.0)) (= (= n{a} 0.0) (= n{i} 0.0)))", i = i, a = a)),
                     "ln" | "log2" | "log10" => {
                         ax.push(format!("(and (= (> n{a} 1.0) (> n{i} 0.0)) (= (= n{a} 1.0) (= n{i} 0.0)))", i = i, a = a));
                         if name == "ln" {
-                            // sound interval facts used by C07/C11 (|fisher| <= ln 199): ln is monotone, ln 199 < 5.2933049
+                            // sound interval facts used by C07/C11 (|fisher| <= ln 199): ln is monotone
                             let hi = rat_smt(&f64_rat(199.0f64.ln()));
                             ax.push(format!("(and (=> (<= n{a} 199.0) (<= n{i} {hi})) (=> (>= n{a} (/ 1.0 199.0)) (>= n{i} (- {hi}))))", a = a, i = i, hi = hi));
                         }
                     }
                     _ => {}
-                }
+                },
+                _ => {}
             }
         }
-        // Ackermann congruence + monotonicity between applications of the same function
-        for (x, &i) in ufs.iter().enumerate() { for &j in &ufs[x + 1..] {
-            if let (Node::Uf(f, a), Node::Uf(g, b)) = (&self.nodes[i as usize], &self.nodes[j as usize]) {
-                if f == g {
-                    match *f {
-                        "exp" | "exp2" | "ln" | "log2" | "log10" | "tanh" => ax.push(format!("(and (= (< n{a} n{b}) (< n{i} n{j})) (= (= n{a} n{b}) (= n{i} n{j})))", a = a, b = b, i = i, j = j)),
-                        _ => ax.push(format!("(=> (= n{a} n{b}) (= n{i} n{j}))", a = a, b = b, i = i, j = j)),
-                    }
-                }
+        // pairwise: sqrt monotone/injective on its domain; Ackermann congruence + monotonicity for the same function
+        let pair = |i: u32, j: u32, ax: &mut Vec<String>| {
+            match (&self.nodes[i as usize], &self.nodes[j as usize]) {
+                (Node::Sqrt(a), Node::Sqrt(b)) => ax.push(format!("(=> (and (>= n{a} 0.0) (>= n{b} 0.0)) (and (= (< n{a} n{b}) (< n{i} n{j})) (= (= n{a} n{b}) (= n{i} n{j}))))", a = a, b = b, i = i, j = j)),
+                (Node::Uf(f, a), Node::Uf(g, b)) if f == g => match *f {
+                    "exp" | "exp2" | "ln" | "log2" | "log10" | "tanh" => ax.push(format!("(and (= (< n{a} n{b}) (< n{i} n{j})) (= (= n{a} n{b}) (= n{i} n{j})))", a = a, b = b, i = i, j = j)),
+                    _ => ax.push(format!("(=> (= n{a} n{b}) (= n{i} n{j}))", a = a, b = b, i = i, j = j)),
+                },
+                _ => {}
             }
-        } }
-        if !ufs.is_empty() && ufs.iter().any(|&i| matches!(self.nodes[i as usize], Node::Uf(n, _) if n != "tanh" )) { /* linear axioms only */ }
-        (ax, nl, vars)
+        };
+        for (x, &i) in new.iter().enumerate() {
+            for &j in existing { pair(j, i, &mut ax); }
+            for &j in &new[x + 1..] { pair(i, j, &mut ax); }
+        }
+        ax
+    }
+    fn push_pc(&mut self, c: Cond<Sym>) {
+        let s = self.smt(&c);
+        self.pc_smt.push(s);
+        self.pc.push(c);
+    }
+    /// bring the solver's assertion stack (one push level per path-condition conjunct) in line with the current PC
+    fn sync(&mut self) {
+        if self.solver_epoch != self.solver.n_killed { self.levels.clear(); self.solver_epoch = self.solver.n_killed; }
+        let mut l = 0;
+        while l < self.levels.len() && l < self.pc_smt.len() && self.levels[l].smt == self.pc_smt[l] { l += 1; }
+        for _ in l..self.levels.len() { self.solver.send("(pop)"); }
+        self.levels.truncate(l);
+        for i in l..self.pc.len() {
+            let (nl, vars, sp) = self.closure(&[&self.pc[i]]);
+            let existing: Vec<u32> = self.levels.iter().flat_map(|x| x.special.iter().copied()).collect();
+            let newsp: Vec<u32> = sp.into_iter().filter(|n| !existing.contains(n)).collect();
+            let ax = self.axioms_for(&newsp, &existing);
+            self.solver.send("(push)");
+            for a in ax { self.solver.send(&format!("(assert {})", a)); }
+            self.solver.send(&format!("(assert {})", self.pc_smt[i]));
+            self.levels.push(Level { smt: self.pc_smt[i].clone(), nl, special: newsp, vars });
+        }
     }
     /// is `PC ∧ extra` satisfiable?
     pub fn query(&mut self, extra: &[Cond<Sym>], want_model: bool) -> (Sat, Vec<(String, BigRational)>, String) { let t = self.solver.timeout_ms; self.query_t(extra, want_model, t) }
     pub fn query_t(&mut self, extra: &[Cond<Sym>], want_model: bool, nl_timeout_ms: u64) -> (Sat, Vec<(String, BigRational)>, String) {
-        let mut refs: Vec<&Cond<Sym>> = self.pc.iter().collect();
-        for e in extra { refs.push(e); }
-        let (ax, nl, vars) = self.cone(&refs);
-        let mut asserts: Vec<String> = ax;
+        self.sync();
+        let refs: Vec<&Cond<Sym>> = extra.iter().collect();
+        let (nl_e, vars_e, sp_e) = self.closure(&refs);
+        let existing: Vec<u32> = self.levels.iter().flat_map(|x| x.special.iter().copied()).collect();
+        let newsp: Vec<u32> = sp_e.into_iter().filter(|n| !existing.contains(n)).collect();
+        let mut asserts: Vec<String> = self.axioms_for(&newsp, &existing);
         for c in &refs { asserts.push(self.smt(c)); }
+        let nl = nl_e || self.levels.iter().any(|l| l.nl);
+        let killed = self.solver.n_killed;
         let r = self.solver.check_t(&asserts, nl, nl_timeout_ms);
+        if self.solver.n_killed != killed { self.levels.clear(); self.solver_epoch = self.solver.n_killed; }
+        // the full query (for evidence samples and replay files): path condition + this query
+        self.solver.last_query = format!("{}{}", self.pc_smt.iter().map(|s| format!("(assert {})\n", s)).collect::<String>(), self.solver.last_query);
+        let mut vars: Vec<u32> = self.levels.iter().flat_map(|x| x.vars.iter().copied()).collect();
+        vars.extend(vars_e);
+        vars.sort_unstable();
+        vars.dedup();
         let mut model = vec![];
         let mut raw = String::new();
         if r == Sat::Sat && want_model {
@@ -532,21 +575,25 @@ impl Ctx {
         let idx = self.decisions.len();
         if idx >= self.max_decisions { std::panic::panic_any(EngineAbort(format!("more than {} symbolic decisions on one path", self.max_decisions))); }
         if let Some(d) = self.deadline { if idx >= self.prefix.len() && Instant::now() > d { std::panic::panic_any(EngineAbort("budget: unit time budget exhausted".into())); } }
-        let d = if idx < self.prefix.len() { self.prefix[idx] } else {
+        let (d, forced) = if idx < self.prefix.len() { (self.prefix[idx] & 1 == 1, self.prefix[idx] >= 2) } else {
             let bt = self.branch_nl_timeout_ms;
             let (t, _, _) = self.query_t(&[cond.clone()], false, bt);
-            if t == Sat::Unsat { false } else {
+            if t == Sat::Unsat { (false, true) } else {
                 let (f, _, _) = self.query_t(&[Cond::not(cond.clone())], false, bt);
                 if t == Sat::Unknown || f == Sat::Unknown { self.stats.unknown_branches += 1; }
                 match f {
-                    Sat::Unsat => true,
-                    _ => { let mut alt = self.decisions.clone(); alt.push(false); self.pending.push(alt); true }
+                    Sat::Unsat => (true, true),
+                    _ => { let mut alt = self.trace.clone(); alt.push(0); self.pending.push(alt); (true, false) }
                 }
             }
         };
         self.decisions.push(d);
+        self.trace.push((d as u8) | if forced { 2 } else { 0 });
         self.cache.insert((op, a, b), d);
-        self.pc.push(if d { cond } else { Cond::not(cond) });
+        // a forced decision is implied by the path condition; keep it only when it is linear (cheap, and it helps
+        // the solver), drop it when nonlinear (it would turn every later query on this path into a nonlinear one)
+        let keep = !forced || { let (nl, _, _) = self.closure(&[&cond]); !nl };
+        if keep { self.push_pc(if d { cond } else { Cond::not(cond) }); }
         d
     }
     pub fn assume(&mut self, c: Cond<Sym>) {
@@ -554,7 +601,7 @@ impl Ctx {
             Some(true) => {}
             Some(false) => std::panic::panic_any(EngineAbort("assumption is false on this path".into())),
             None => {
-                self.pc.push(c);
+                self.push_pc(c);
                 // under a replayed decision prefix the parent path already established feasibility
                 if self.decisions.len() < self.prefix.len() { return; }
                 // keep the path feasible: an infeasible assumption ends the path (vacuity is tracked by the caller)
